@@ -379,6 +379,8 @@ def run(out, tier, scratch):
     out.assumptions += [
         "each intermediate MPUChunk is consumed by exactly one merge (dask fold/collate structure); the model is a pure function of the merge tree",
         "part numbers/limits of the writer are read-only (PartsWriter protocol)",
+        "task purity (the model is functional: an operator never changes its inputs) is not a theorem about the Python code; it is "
+        "checked by computing the same graph twice in the end-to-end family (defect 440f778 was found there)",
     ]
     rng = core.rng("c06")
     cases, metas = [], []
